@@ -1509,7 +1509,7 @@ func checkNilableFields(c *Ctx, scope []*ssa.Function) {
 							continue
 						}
 						for _, side := range []ssa.Value{bo.X, bo.Y} {
-							if k2, ok := fieldOf(side); ok && k2 == k && sameValue(side, ptr) {
+							if k2, ok := fieldOf(side); ok && k2 == k && (sameValue(side, ptr) || sameLocalField(side, ptr, b)) {
 								if nn, ok := isNilCheck(cnd.v, side); ok && nn == cnd.pol {
 									guarded = true
 								}
@@ -2193,6 +2193,31 @@ func constInterval(b *ssa.BasicBlock, idx ssa.Value) (lo, hi int64, hasLo, hasHi
 	if bt, ok := base.Type().Underlying().(*types.Basic); ok && bt.Info()&types.IsUnsigned != 0 && !hasLo {
 		lo, hasLo = 0, true
 	}
+	// the index of a range loop (rotated form): idx = phi + 1 with phi = [-1, idx]; or a counter phi = [K >= 0, phi + 1]
+	if !hasLo {
+		if add, ok := base.(*ssa.BinOp); ok && add.Op == token.ADD {
+			if ph, ok := add.X.(*ssa.Phi); ok {
+				if k, ok := add.Y.(*ssa.Const); ok && k.Value != nil && k.Int64() == 1 && len(ph.Edges) == 2 {
+					for i, e := range ph.Edges {
+						if k0, ok := e.(*ssa.Const); ok && k0.Value != nil && k0.Int64() >= -1 && ph.Edges[1-i] == ssa.Value(add) {
+							lo, hasLo = k0.Int64()+1, true
+						}
+					}
+				}
+			}
+		}
+		if ph, ok := base.(*ssa.Phi); ok && len(ph.Edges) == 2 {
+			for i, e := range ph.Edges {
+				if k0, ok := e.(*ssa.Const); ok && k0.Value != nil && k0.Int64() >= 0 {
+					if add, ok := ph.Edges[1-i].(*ssa.BinOp); ok && add.Op == token.ADD && add.X == ssa.Value(ph) {
+						if k, ok := add.Y.(*ssa.Const); ok && k.Value != nil && k.Int64() > 0 {
+							lo, hasLo = k0.Int64(), true
+						}
+					}
+				}
+			}
+		}
+	}
 	return
 }
 
@@ -2336,4 +2361,78 @@ func derivesFromParam(v ssa.Value, depth int, seen map[ssa.Value]bool) bool {
 		}
 	}
 	return false
+}
+
+
+// sameLocalField: a and b are loads of the same field of the same local struct variable, and no store to that field sits in
+// a block that executes between the test and the use (any block dominated by the immediate dominator chain from the use's
+// block up to the test's block is examined conservatively: no store to the field anywhere but before the test's block).
+func sameLocalField(a, b ssa.Value, use *ssa.BasicBlock) bool {
+	ua, ok1 := a.(*ssa.UnOp)
+	ub, ok2 := b.(*ssa.UnOp)
+	if !ok1 || !ok2 || ua.Op != token.MUL || ub.Op != token.MUL {
+		return false
+	}
+	fa, ok1 := ua.X.(*ssa.FieldAddr)
+	fb, ok2 := ub.X.(*ssa.FieldAddr)
+	if !ok1 || !ok2 || fa.Field != fb.Field || fa.X != fb.X {
+		return false
+	}
+	base, ok := fa.X.(*ssa.Alloc)
+	if !ok || base.Heap {
+		return false
+	}
+	test := ua.Block()
+	for _, r := range *base.Referrers() {
+		switch x := r.(type) {
+		case *ssa.FieldAddr:
+			if x.Field != fa.Field {
+				continue
+			}
+			for _, r2 := range *x.Referrers() {
+				if st, ok := r2.(*ssa.Store); ok && st.Addr == ssa.Value(x) {
+					// a store to the field is harmless only if it cannot run after the test: its block is not the test's block
+					// after the load, and is not dominated by the test's block
+					sb := st.Block()
+					if sb == test {
+						before := false
+						for _, in := range sb.Instrs {
+							if in == ssa.Instruction(st) {
+								before = true
+								break
+							}
+							if in == ssa.Instruction(ua) {
+								break
+							}
+						}
+						if before {
+							continue
+						}
+						return false
+					}
+					if test.Dominates(sb) {
+						return false
+					}
+				}
+			}
+		case *ssa.Store:
+			if x.Addr == ssa.Value(base) {
+				sb := x.Block()
+				if sb == test || test.Dominates(sb) {
+					return false
+				}
+			}
+		case *ssa.UnOp:
+			// whole-struct load: harmless
+		default:
+			// the address of the variable goes somewhere else
+			if _, isInstr := r.(ssa.Instruction); isInstr {
+				if _, isCall := r.(ssa.CallInstruction); isCall {
+					return false
+				}
+			}
+		}
+	}
+	_ = use
+	return true
 }
